@@ -37,7 +37,7 @@ def bounds(tier):
 def goals(tier):
     return ["accepted-by-signature", "rejected-by-upstream-letter", "rejected-by-downstream-letter", "degenerate-signature-accepts",
             "degenerate-signature-rejects", "vector-part", "characterize-found", "characterize-runtimeerror", "characterize-concrete-root",
-            "characterize-several-candidates-accept", "other-kind-record", "signature-free-class-asked-first"]
+            "characterize-several-candidates-accept", "other-kind-record", "signature-free-class-asked-first", "candidate-type-declared-after-first-use"]
 
 
 # ---------------------------------------------------------------------------------------------
@@ -384,6 +384,36 @@ def check_characterize(st, root, rootname, s, scn):
             st.violation("characterize", "no-runtimeerror-although-no-candidate-accepts", scn, "RuntimeError", [got[0], getattr(got[1], "__name__", str(got[1]))])
 
 
+def unit_late_subclass(st, replaying=False):
+    """A multi-step history: a root is used for characterisation, THEN a further candidate type is declared, then records of
+    the new type are characterised through the same root (and through a concrete parent that gains a child)."""
+    from Bio.Restriction import BsaI
+    M, V = gen.generic_classes("BsaI")
+    root = type(str("HLateRoot"), (_parts.AbstractPart,), {"cutter": BsaI, "signature": NotImplemented})
+    first = type(str("HLateA"), (root, M), {"signature": ("ACGT", "TTGA")})
+    conc = type(str("HLateConcrete"), (_parts.AbstractPart, M), {"cutter": BsaI, "signature": ("GGCA", "NNNN")})
+    gen.prime([first, conc])
+    rec_a = record_for("BsaI", "module", "ACGT", "TTGA")
+    rec_b = record_for("BsaI", "module", "GGCA", "CCAT")
+    rec_c = record_for("BsaI", "module", "CCAT", "ACGA")
+    # step 1: the roots are used
+    check_characterize(st, root, "HLateRoot", rec_a, dict(family="late-subclass", step=1, root="HLateRoot", seq=rec_a))
+    check_characterize(st, root, "HLateRoot", rec_b, dict(family="late-subclass", step=1, root="HLateRoot", seq=rec_b))
+    check_characterize(st, conc, "HLateConcrete", rec_b, dict(family="late-subclass", step=1, root="HLateConcrete", seq=rec_b))
+    # step 2: new candidate types are declared
+    late = type(str("HLateB"), (root, M), {"signature": ("GGCA", "CCAT")})
+    late_n = type(str("HLateN"), (root, M), {"signature": ("CCAT", "NNNN")})
+    late_child = type(str("HLateConcreteChild"), (conc,), {"signature": ("GGCA", "CCAT")})
+    gen.prime([late, late_n, late_child])
+    # step 3: records of the new types through the same roots
+    for rec in (rec_a, rec_b, rec_c):
+        check_characterize(st, root, "HLateRoot", rec, dict(family="late-subclass", step=3, root="HLateRoot", seq=rec))
+        st.scenario("late", None)
+        st.nontrivial += 1
+    check_characterize(st, conc, "HLateConcrete", rec_b, dict(family="late-subclass", step=3, root="HLateConcrete", seq=rec_b))
+    st.goal("candidate-type-declared-after-first-use")
+
+
 def unit_characterize(st, rootname, tier):
     import importlib
     if rootname == "harness-roots":
@@ -417,11 +447,16 @@ def unit_characterize(st, rootname, tier):
                 if cls.__name__ == "YTKPart234r":
                     s = c16.kit_instances(cls)[0][0]
                     check_characterize(st, root, name, s, dict(family="characterize", root=name, kind="234r", seq=s))
+    if rootname == "harness-roots":
+        unit_late_subclass(st)
     st.sample(dict(family="characterize", root=roots[0][0], kind="module", up=words[0], down=words[1]))
 
 
 def replay(scn, sub, st):
     fam = scn["family"]
+    if fam == "late-subclass":
+        unit_late_subclass(st, replaying=True)
+        return
     if fam == "characterize":
         name = scn["root"]
         if name.startswith("HRoot"):
